@@ -1888,7 +1888,7 @@ impl Term<Name> {
     // This splits [lam fun_name [lam fun_name2 rest ..] ..] into
     // [[lam fun_name lam fun_name2 rest ..]..] thus
     // allowing for some crazy gains from cast_constr_apply_reducer
-    fn split_body_lambda(&mut self) {
+    fn split_body_lambda(&mut self, top_level: bool) {
         let mut arg_stack = vec![];
         let mut current_term = &mut std::mem::replace(self, Term::Error.force());
         let mut unsat_lams = vec![];
@@ -1897,13 +1897,34 @@ impl Term<Name> {
         let mut function_dependencies = vec![vec![]];
 
         loop {
+            // Moving an unapplied lambda above the bindings collected so far delays their
+            // arguments until the lambda is applied, and repeats them on every application.
+            // Below the top level (where all the lambdas of the spine are the program's own
+            // parameters and get applied together) that is only sound when none of those
+            // arguments does any work, and so cannot fail: `let x = 100 / a  fn(p) { x + p }`
+            // must divide when it is evaluated, not when the closure is called. Otherwise
+            // the lambda stays where it is and becomes the body.
+            if !top_level
+                && matches!(current_term, Term::Lambda { .. })
+                && !matches!(arg_stack.last(), Some(Args::Apply(..)))
+                && function_groups
+                    .iter()
+                    .flatten()
+                    .any(|(_, arg): &(Rc<Name>, Term<Name>)| !arg.is_inert())
+            {
+                if let Term::Lambda { body, .. } = current_term {
+                    Rc::make_mut(body).split_body_lambda(false);
+                }
+                break;
+            }
+
             match current_term {
                 Term::Apply { function, argument } => {
                     current_term = Rc::make_mut(function);
 
                     let arg = Rc::make_mut(argument);
 
-                    arg.split_body_lambda();
+                    arg.split_body_lambda(false);
 
                     arg_stack.push(Args::Apply(0, std::mem::replace(arg, Term::Error.force())));
                 }
@@ -1948,7 +1969,7 @@ impl Term<Name> {
                     arg_stack.push(Args::Force(0));
                 }
                 Term::Delay(term) => {
-                    Rc::make_mut(term).split_body_lambda();
+                    Rc::make_mut(term).split_body_lambda(false);
                     break;
                 }
                 Term::Case { .. } => todo!(),
@@ -2026,6 +2047,21 @@ impl Term<Name> {
             });
 
         *self = term;
+    }
+
+    /// A term whose evaluation does no work: it cannot fail, diverge or cost more than a step.
+    fn is_inert(&self) -> bool {
+        match self {
+            Term::Var(_)
+            | Term::Constant(_)
+            | Term::Lambda { .. }
+            | Term::Delay(_)
+            | Term::Builtin(_) => true,
+            Term::Force(inner) => {
+                matches!(inner.as_ref(), Term::Builtin(_) | Term::Force(_)) && inner.is_inert()
+            }
+            _ => false,
+        }
     }
 
     fn get_var_names(&self) -> Vec<Rc<Name>> {
@@ -3318,7 +3354,7 @@ impl Program<Name> {
     }
 
     pub fn split_body_lambda_reducer(mut self) -> Self {
-        self.term.split_body_lambda();
+        self.term.split_body_lambda(true);
 
         self
     }
